@@ -208,8 +208,9 @@ type Sim struct {
 
 	initConf refmodel.Conf
 
-	propSeq  int
-	readSeq  int
+	propSeq    int
+	readSeq    int
+	deliveries int
 	curCause *Cause
 }
 
